@@ -28,7 +28,8 @@ def parse(diff_text):
         if raw.startswith("@@"):
             if cur is None:
                 raise PatchError("hunk before file header")
-            hunk = [[], []]
+            m = re.match(r"@@ -(\d+)(?:,\d+)? \+(\d+)", raw)
+            hunk = [[], [], int(m.group(1)) if m else 0, int(m.group(2)) if m else 0]
             cur.append(hunk)
             continue
         if hunk is None:
@@ -45,7 +46,7 @@ def parse(diff_text):
             hunk[1].append(line)
     out = {}
     for p, hs in files.items():
-        out[p] = [("\n".join(a), "\n".join(b)) for a, b in hs]
+        out[p] = [("\n".join(h[0]), "\n".join(h[1]), h[2], h[3]) for h in hs]
     return out
 
 
@@ -54,13 +55,26 @@ def apply(provider, diff_text, reverse=False):
     overlay = {}
     for path, hunks in parse(diff_text).items():
         text = overlay.get(path) or provider(path)
-        for a, b in hunks:
+        for a, b, la, lb in hunks:
             src, dst = (b, a) if reverse else (a, b)
+            want_line = lb if reverse else la
             # trailing empty context line produced by the final split
             src_s, dst_s = src.rstrip("\n"), dst.rstrip("\n")
             n = text.count(src_s)
-            if n != 1:
-                raise PatchError("%s: hunk matches %d times" % (path, n))
-            text = text.replace(src_s, dst_s)
+            if n == 0:
+                raise PatchError("%s: hunk matches 0 times" % path)
+            if n == 1:
+                text = text.replace(src_s, dst_s)
+                continue
+            # clone code: pick the occurrence closest to the line the hunk header names
+            best, pos = None, -1
+            while True:
+                pos = text.find(src_s, pos + 1)
+                if pos < 0:
+                    break
+                line = text.count("\n", 0, pos) + 1
+                if best is None or abs(line - want_line) < abs(best[1] - want_line):
+                    best = (pos, line)
+            text = text[:best[0]] + dst_s + text[best[0] + len(src_s):]
         overlay[path] = text
     return overlay
